@@ -233,6 +233,23 @@ func termShape(t Term) string {
 }
 
 func c16(c *Ctx) {
+	if os.Getenv("GOOMVET_X86IDX") != "" {
+		c16IndexProbe(c.K1())
+	}
+	// R6: decoding is a function of the bytes it is given: no memo, no shared scratch state on the decode path
+	{
+		p, r := c.K1(), c.R
+		var droots []*ssa.Function
+		for _, f := range []*ssa.Function{p.Fn("internal/bytecode", "ParseIns"), p.Fn("internal/arch/x86asm", "Decode")} {
+			if f != nil {
+				droots = append(droots, f)
+			}
+		}
+		checkNoMutableState(p, r, "C16.R6", "instruction decoding", droots, func(f *ssa.Function) bool {
+			rp := relPkg(f)
+			return rp == "internal/arch/x86asm" || (rp == "internal/bytecode" && f.Name() == "ParseIns")
+		}, "the length or PC-relative field reported for some bytes depends on what was decoded before (e.g. a truncated window answered from a longer one)")
+	}
 	p, r := c.K1(), c.R
 	r.Expl = "Totality clauses of the bundled x86-64 decoder (agreement with a reference decoder on compiler-emitted code needs an encoding oracle and is NOT decided): (R1) every read of the input slice in the decoder is dominated by a length check that proves it in range on the same SSA values (difference constraints), the input is cut to 15 bytes first, and the position only grows; (R2) the decoder's bytecode table is verified entry by entry by an abstract execution of its control operators: all jump/branch targets in range, no cycles, every path ends in match/fail, PC-relative argument kinds are preceded by the read of a field of that width (so the PC-relative field lies inside the bytes consumed), immediates and ModR/M-based arguments are preceded by their reads, at most 4 arguments, an opcode is set before a match; (R4) every consumer loop that advances by the decoded length tests the decode error first and slices PC-relative fields with the decoder's own offset/width; (R3, thorough) every bounds check the compiler could not remove in the decoder is one of the reviewed constructs."
 	r.RuleText = "one obligation per (rule, read site / table state / consumer call)"
@@ -1213,4 +1230,25 @@ func caseBoundProof(p *Prog, file string, line, col int) string {
 		}
 	}
 	return ""
+}
+
+// c16IndexProbe (development aid): how many index expressions of the x86 decoder the general index-safety rule proves.
+func c16IndexProbe(p *Prog) {
+	sub := NewReport("C16", "quick")
+	sub.SetConfig("probe")
+	tot, prv := 0, 0
+	for _, f := range p.FuncsIn("internal/arch/x86asm") {
+		if f.Name() == "init" {
+			continue
+		}
+		a, b := checkIndexSafety(p, sub, "probe", f)
+		tot += a
+		prv += b
+	}
+	fmt.Printf("x86asm index probe: %d index expressions, %d proven\n", tot, prv)
+	for _, o := range sub.Obls {
+		if o.Verdict != Discharged {
+			fmt.Printf("  unproven %s %s\n", o.Pos, o.Construct)
+		}
+	}
 }
